@@ -266,12 +266,17 @@ def apply_model(sym, n, f, vals, mut_idx, st):
         first = vals[0]
         if first[0] == "adt" and first[1] == "Ordering" and first[2] in ("Less", "Greater"):
             return V(first)
+        EQ_ = ("adt", "Ordering", "Equal", ())
+
+        def mk_then(a_, b_):
+            # Equal is the unit of the lexicographic composition on both sides
+            return b_ if a_ == EQ_ else (a_ if b_ == EQ_ else ("then", a_, b_))
         if p.endswith("then_with"):
             out = []
             for s2, (k2, v2) in sym.apply(vals[1], [], st, n):
-                out.append((s2, (k2, v2 if (first[0] == "adt" and first[2] == "Equal") else ("then", first, v2))))
+                out.append((s2, (k2, mk_then(first, v2))))
             return out
-        return V(vals[1] if (first[0] == "adt" and first[2] == "Equal") else ("then", first, vals[1]))
+        return V(mk_then(first, vals[1]))
     if p == "std::cmp::Ordering::is_ne":
         return V(("not", ("eq", vals[0], ("adt", "Ordering", "Equal", ()))))
     if p == "std::cmp::Ordering::is_eq":
